@@ -36,9 +36,10 @@ CONSTANTS MaxOps,      \* programs have at most MaxOps top-level operators
 \*   lost  -- the stream is in fact no longer sorted by f
 \*   strm  -- the stream reaches this point from the enclosing fork without a blocking
 \*            operator (sort), i.e. the fork hands it over batch by batch
+\*   werr  -- a where whose predicate can fail has replaced values by error values (their key is missing)
 \*   inc   -- the stream is produced incrementally by a merge: null and missing keys, which
 \*            tie in every comparator, may interleave although they are different groups
-Key(f, desc, nf) == [f |-> f, desc |-> desc, nf |-> nf, multi |-> FALSE, lost |-> FALSE, strm |-> FALSE, inc |-> FALSE]
+Key(f, desc, nf) == [f |-> f, desc |-> desc, nf |-> nf, multi |-> FALSE, lost |-> FALSE, strm |-> FALSE, inc |-> FALSE, werr |-> FALSE]
 NoKey == Key("", FALSE, FALSE)
 KeyEq(a, b) == a.f = b.f /\ a.desc = b.desc           \* order.SortKeys.Equal
 IsNil(k) == k.f = ""
@@ -182,7 +183,8 @@ PSKOp(op, parents, acc) ==
               ELSE [op |-> [op EXCEPT !.dir = DirOf(parent)], keys |-> <<parent>>,
                     taint |-> acc.taint \cup (IF parent.multi THEN {"fork-sortkey"} ELSE {})
                                          \cup (IF parent.lost THEN {"stale-sortkey"} ELSE {})
-                                         \cup (IF parent.inc THEN {"sortdir-null-missing"} ELSE {}),
+                                         \cup (IF parent.inc THEN {"sortdir-null-missing"} ELSE {})
+                                         \cup (IF parent.werr THEN {"where-error-sortkey"} ELSE {}),
                     rules |-> acc.rules \cup {"summarize-sort-dir"}]
          [] op.k = "fork" ->
               LET RECURSIVE Legs(_, _)
@@ -202,7 +204,8 @@ PSKOp(op, parents, acc) ==
               LET out == AnalyzeKeys(op, parent)
                   res == IF IsNil(out) THEN NoKey
                          ELSE IF op.k = "sort" THEN out
-                         ELSE [out EXCEPT !.lost = parent.lost \/ ~ReallyKeeps(op, parent), !.multi = parent.multi, !.nf = parent.nf, !.strm = parent.strm, !.inc = parent.inc]
+                         ELSE [out EXCEPT !.lost = parent.lost \/ ~ReallyKeeps(op, parent), !.multi = parent.multi, !.nf = parent.nf, !.strm = parent.strm, !.inc = parent.inc,
+                                          !.werr = parent.werr \/ (op.k = "where" /\ ErrCapable(op.ps))]
               IN [op |-> op, keys |-> <<res>>, taint |-> acc.taint, rules |-> acc.rules]
 
 PSK(seq, parents, acc) ==
